@@ -276,7 +276,8 @@ func (t *ipTransport) notifyListener(a *accessory.Accessory, c *characteristic.C
 
 		resp, err := hap.NewCharacteristicNotification(a, c)
 		if err != nil {
-			log.Info.Panic(err)
+			log.Info.Println(err)
+			continue
 		}
 
 		// Write response into buffer to replace HTTP protocol
